@@ -252,6 +252,79 @@ def clause_c(repo, chk):
     chk.require_count("C-cache", 5)
 
 
+WRAP = "tf_pwa/experimental/wrap_function.py"
+
+
+def clause_d(repo, chk):
+    """the graph-compiled wrapper binds the flattened tensors of every later call positionally to the structure
+    recorded at the first call: the traversals must visit dict entries in an order that does not depend on the
+    insertion order of the caller's dicts"""
+    chk.rule("D-canon", "wrap_function: _flatten visits dict entries in sorted key order, and the recorded structure is traversed in that same order (_wrap_struct builds it sorted, or _nest sorts): positional binding of tensors to keys is independent of dict insertion order")
+
+    def dict_branch_order(key):
+        fn = repo.fn(key)
+        arg = fn.node.args.args[0].arg
+        for n in walk_local(fn.node):
+            if isinstance(n, ast.If) and norm_text(n.test).replace(" ", "") in ("isinstance(%s,dict)" % arg,):
+                srcs = []
+                for st in n.body:
+                    for x in ast.walk(st):
+                        if isinstance(x, ast.For):
+                            srcs.append(x.iter)
+                        elif isinstance(x, ast.comprehension):
+                            srcs.append(x.iter)
+                if len(srcs) != 1:
+                    raise AnalysisError("%s: dict branch has %d iteration sources, one expected" % (key, len(srcs)))
+                it = srcs[0]
+                t = norm_text(it).replace(" ", "")
+                if isinstance(it, ast.Call) and norm_text(it.func) == "sorted" and len(it.args) == 1 and not it.keywords and norm_text(it.args[0]).replace(" ", "") in (arg, arg + ".keys()", arg + ".items()"):
+                    return fn, n, "sorted", t
+                if t in (arg, arg + ".keys()", arg + ".items()", arg + ".values()"):
+                    return fn, n, "insertion", t
+                raise AnalysisError("%s: dict branch iterates over `%s`: neither sorted(...) of the dict nor the dict itself" % (key, t))
+        raise AnalysisError("%s: branch `isinstance(%s, dict)` not found" % (key, arg))
+
+    fl = dict_branch_order(WRAP + "::_flatten")
+    ws = dict_branch_order(WRAP + "::_wrap_struct")
+    ne = dict_branch_order(WRAP + "::_nest")
+    for fn, n, kind, t in (fl, ws, ne):
+        chk.instance("D-canon", "%s: dict entries visited in %s order (`%s`)" % (fn.qual, kind, t))
+    if fl[2] != "sorted":
+        chk.violation("D-canon", fl[0].key, "flatten-order", "_flatten visits dict entries in insertion order (`%s`): a later data set whose dicts were filled in another order binds same-shaped tensors to the wrong keys of the recorded structure" % fl[3], file=WRAP, line=fl[1].lineno)
+    if ws[2] != "sorted" and ne[2] != "sorted":
+        chk.violation("D-canon", ws[0].key, "struct-order", "the recorded structure keeps the insertion order of the first call's dicts (`%s`) and _nest follows it (`%s`), while tensors are flattened in sorted key order" % (ws[3], ne[3]), file=WRAP, line=ws[1].lineno)
+    # WrapFun.__call__ uses exactly these helpers
+    call = repo.fn(WRAP + "::WrapFun.__call__")
+    used = {norm_text(x.func) for x in ast.walk(call.node) if isinstance(x, ast.Call)}
+    ok = {"_flatten", "_wrap_struct", "_nest"} <= used
+    chk.instance("D-canon", "WrapFun.__call__ flattens with _flatten, records with _wrap_struct, rebuilds with _nest: %s" % ok)
+    if not ok:
+        raise AnalysisError("WrapFun.__call__ no longer uses _flatten/_wrap_struct/_nest (%s)" % sorted(used))
+    chk.require_count("D-canon", 4)
+
+
+SCOPED = (
+    "tf_pwa/amp/amp.py::BaseAmplitudeModel.temp_total_gls_one",  # cached_shape: couplings masked to 1 while the shape part is built
+    "tf_pwa/amp/amp.py::CachedShapeAmplitudeModel.pdf",  # cached_shape: chain selection narrowed per chain
+)
+
+
+def clause_e(repo, chk):
+    """the cached-shape strategy evaluates parts of the model under a scoped change of model state (coupling masks,
+    chain selection); the state must be back on every exit, otherwise this strategy (and every later evaluation)
+    differs from eager evaluation"""
+    from .c17 import surface_dirty
+
+    chk.rule("E-scope", "the scoped state changes the cached-shape strategy relies on (temp_total_gls_one: mask_factor flags; CachedShapeAmplitudeModel.pdf: chain selection) are undone on every exit, each cell from a snapshot taken before it was written (typestate over the CFG, shared with C17)")
+    dirty, nodes = surface_dirty(repo, SCOPED)
+    for key in SCOPED:
+        mine = [d for d in dirty if d[0] == key]
+        chk.oblige("E-scope", "%s: state cells restored on all exits" % key.split("::")[1], not mine)
+    for key, cell, exit_kind, has_restore, msg, path, line in dirty:
+        chk.violation("E-scope", key, "%s@%s" % (cell, exit_kind), msg, file=key.split("::")[0], line=line, path=path)
+    chk.info("E-scope: %d CFG nodes analysed" % nodes)
+
+
 def run(repo, chk, tier):
     res = Resolver(repo)
     chk.info("not decided: correctness of the custom contraction for every index expression x shape; graph/XLA compilation; numerical equality of strategies")
@@ -259,3 +332,5 @@ def run(repo, chk, tier):
     clause_a2(repo, chk)
     clause_b(repo, chk, res)
     clause_c(repo, chk)
+    clause_d(repo, chk)
+    clause_e(repo, chk)
